@@ -251,7 +251,9 @@ func (n *node) readdir() ([]fuse.DirEntry, syscall.Errno) {
 
 	// Append whiteouts if no entry replaces the target entry in the lower layer.
 	for w, id := range whiteouts {
-		if !normalEnts[w[len(whiteoutPrefix):]] {
+		// A whiteout of a name that itself carries the reserved ".wh." prefix is not shown:
+		// Lookup hides every name with that prefix, and listing must agree with it.
+		if !normalEnts[w[len(whiteoutPrefix):]] && !strings.HasPrefix(w[len(whiteoutPrefix):], whiteoutPrefix) {
 			ino, err := n.fs.inodeOfID(id)
 			if err != nil {
 				n.fs.s.report(fmt.Errorf("node.Readdir: err = %v; lastErr = %v", err, lastErr))
